@@ -150,7 +150,8 @@ func (e cfErrors) Error() string {
 
 // PublishECH updates the target DNS records with a new config list.
 func (cf *CloudflarePublisher) PublishECH(ctx context.Context, records []Target, configList []byte) []TargetResult {
-	zones := make(map[string]bool)
+	// The outcome of reading each zone. It applies to all its records.
+	zones := make(map[string]error)
 	data := make(map[zoneName]idData)
 
 	newValue := base64.StdEncoding.EncodeToString(configList)
@@ -158,18 +159,20 @@ func (cf *CloudflarePublisher) PublishECH(ctx context.Context, records []Target,
 
 	for _, r := range records {
 		var result TargetResult
-		if !zones[r.Zone] {
-			zones[r.Zone] = true
-			if err := cf.getZoneData(ctx, r.Zone, data); err != nil {
-				if err == errNotFound {
-					result.Code = StatusNotFound
-				} else {
-					result.Code = StatusError
-					result.Error = err
-				}
-				results = append(results, result)
-				continue
+		err, seen := zones[r.Zone]
+		if !seen {
+			err = cf.getZoneData(ctx, r.Zone, data)
+			zones[r.Zone] = err
+		}
+		if err != nil {
+			if err == errNotFound {
+				result.Code = StatusNotFound
+			} else {
+				result.Code = StatusError
+				result.Error = err
 			}
+			results = append(results, result)
+			continue
 		}
 
 		v, exists := data[zoneName{r.Zone, r.Name}]
